@@ -143,14 +143,24 @@ let finish_case (out : string list) =
              else if not (in_input p) then Some "error position outside the input"
              else if int_of_z p.p_offset < start then
                Some (Printf.sprintf "error position %s before the corrupted definition (offset %x)" (string_of_pos p) start)
-             else if idefs <> xdefs then
-               Some ("locality-defs-so-far: definitions so far are not exactly the preceding ones (impl/expected): " ^ diff_defs idefs xdefs)
+             else if idefs <> xdefs then begin
+               (* the preceding definitions followed by more: the corrupted definition itself was reported *)
+               let rec is_prefix a b = match (a, b) with
+                 | [], _ -> true | x :: a', y :: b' -> x = y && is_prefix a' b' | _ :: _, [] -> false in
+               if List.length idefs > List.length xdefs && is_prefix xdefs idefs then
+                 Some (Printf.sprintf "locality-corrupted-definition-reported: Defs() holds %d definition(s) after the preceding ones although parsing failed inside the first of them (impl/expected): %s"
+                         (List.length idefs - List.length xdefs) (diff_defs idefs xdefs))
+               else
+                 Some ("locality-defs-so-far: definitions so far are not exactly the preceding ones (impl/expected): " ^ diff_defs idefs xdefs)
+             end
              else None
        in
        (match clause with
         | Some c ->
             (* the name of the failed clause is part of the observation (known-finding matcher of checks/parser.py) *)
-            let failed = if String.length c >= 20 && String.sub c 0 20 = "locality-defs-so-far" then "locality-defs-so-far" else "other" in
+            let starts p = String.length c >= String.length p && String.sub c 0 (String.length p) = p in
+            let failed = if starts "locality-defs-so-far" then "locality-defs-so-far"
+              else if starts "locality-corrupted-definition-reported" then "locality-corrupted-definition-reported" else "other" in
             Printf.printf "PFAIL %s failed=%s expected-defs=%d observed-defs=%d || clause=%s ; %s\n" obs failed
               (List.length xdefs) (List.length idefs) c model_info
         | None -> if not agrees then Printf.printf "DISAGREE %s || %s\n" obs model_info)
